@@ -555,6 +555,9 @@ func GenCrawl(t *Tape, o CrawlOpts) *Scenario {
 		if o.Faults {
 			for _, kind := range []string{"add", "delete", "get", "seencheck"} {
 				n := c.N(4)
+				if (kind == "add" || kind == "delete") && c.Chance(1, 4) {
+					n = 4 + c.N(5) // an outage: longer than any single back-off or client timeout
+				}
 				for i := 0; i < n; i++ {
 					plan.Faults[kind] = append(plan.Faults[kind], c.Pick("", "500", "reset-before", "reset-after", "timeout", "500"))
 				}
